@@ -553,7 +553,7 @@ func TestVerifC11Select(t *testing.T) {
 		// ---- priority-based selection (by usage, by request)
 		for _, byReq := range []bool{false, true} {
 			cfg := &slov1alpha1.ResourceThresholdStrategy{EvictEnabledPriorityThreshold: ptr.To(thr), AllocatableEvictPriorityThreshold: ptr.To(thr)}
-			h.Op("selprio %d %d", thr, vB(byReq))
+			h.Op("selprio %d %d %d", thr, vB(byReq), vB(!c11IsCPU))
 			var out []*qosmanagerUtil.PodEvictInfo
 			if h.Guard(func() { out = c11SelPrio(ev, byReq, cfg) }) {
 				h.Obs("panic")
